@@ -13,6 +13,7 @@ pub mod c18;
 pub mod c19;
 pub mod c20;
 pub mod solo_props;
+pub mod universal;
 
 use crate::runner::PropDef;
 
